@@ -26,7 +26,7 @@ func init() {
 				"oracle on every transition: elements and storer contents equal those of the reference interpreter restarted from its node-entry checkpoint; every snapshot value held is deep-equal to the frozen copy taken when it was made and to the model checkpoint (nil = empty map); a snapshot taken right after the restore equals the restored one; the unknown-node restore fails and leaves the reflective dump of runner and storer unchanged; " +
 				"a case is one (script, original path, save point, receiver state, continuation); non-trivial = the save point is after at least one jump or the receiver is not fresh",
 			StatesMean:  "(script, history of operations) prefixes visited on the real runners; transitions = real Next / Snapshot / RestoreAt calls compared with the model",
-			Assumptions: []string{"small-scope hypothesis on scripts and path lengths", "scripts of this family contain no failing statement and no random function"},
+			Assumptions: []string{"small-scope hypothesis on scripts and path lengths", "scripts of this family contain no random function; one of them (P7) contains failing statements (unknown jump targets, a type-changing assignment, an unknown function): the dialogue is taken to go on with the statement after the one that failed, as the pinned tree does"},
 		},
 		QuickBudget: 240 * time.Second, ThoroughBudget: 14 * time.Minute, CrashIsViolation: true,
 		Run: runC07,
@@ -85,6 +85,19 @@ func c07Scripts(withGold bool) []*yc.Program {
 		{Nodes: []*yc.Node{
 			{Title: "A", Body: []*yc.Stmt{yc.Line("a1"), yc.Jump("B")}},
 			{Title: "B", Body: []*yc.Stmt{yc.Line("b1"), yc.Options(&yc.Option{Line: yc.TextLine("back"), Body: []*yc.Stmt{yc.Jump("A")}}, &yc.Option{Line: yc.TextLine("end")})}},
+		}},
+		// P7: failing statements (a jump to a node that does not exist, an assignment that would change a type, a call of an
+		// unknown function) between the node entry and the save point: a failed jump enters no node, so the checkpoint
+		// stays that of the last node actually entered, and the statements that failed changed nothing
+		{Nodes: []*yc.Node{
+			{Title: "A", Body: []*yc.Stmt{setx("=", 1), yc.Jump("B")}},
+			{Title: "B", Body: []*yc.Stmt{st("b1", "A", "B"), setx("+=", 1), yc.Jump("nowhere"), st("b2", "A", "B"), yc.Set("x", "=", yc.EString("s")), yc.Set("y", "=", yc.EBoolean(true)),
+				yc.Options(&yc.Option{Line: yc.TextLine("lost"), Body: []*yc.Stmt{setx("*=", 3), yc.JumpE(yc.EString("void")), yc.Line("still in B"), yc.Jump("A")}}, &yc.Option{Line: yc.TextLine("back"), Body: []*yc.Stmt{yc.Call("nosuchfn"), yc.Jump("A")}})}},
+		}},
+		// P8: the title header of the start node ends in blanks (nothing jumps to it): a snapshot taken in it can be restored
+		{Nodes: []*yc.Node{
+			{Title: "Lobby  ", Body: []*yc.Stmt{setx("=", 2), st("l1", "B"), yc.Options(&yc.Option{Line: yc.TextLine("go"), Body: []*yc.Stmt{setx("+=", 1), yc.Jump("B")}}, &yc.Option{Line: yc.TextLine("stay"), Body: []*yc.Stmt{yc.Line("stayed")}}), yc.Line("l2"), yc.Jump("B")}},
+			{Title: "B", Body: []*yc.Stmt{st("b", "B"), yc.Options(&yc.Option{Line: yc.TextLine("again"), Body: []*yc.Stmt{yc.Jump("B")}}, &yc.Option{Line: yc.TextLine("end")})}},
 		}},
 		// P5: a dialogue that ends soon (ended receivers)
 		{Nodes: []*yc.Node{
@@ -192,7 +205,7 @@ func snapDiff(s *ysgo.Snapshot, cp yc.Checkpoint) string {
 	if s == nil {
 		return "Snapshot returned nil"
 	}
-	if s.CurrentNode != cp.Node {
+	if strings.TrimSpace(s.CurrentNode) != strings.TrimSpace(cp.Node) { // whether blanks around a title belong to it is not settled
 		return fmt.Sprintf("CurrentNode %q, node entered last is %q", s.CurrentNode, cp.Node)
 	}
 	var keys []string
@@ -213,18 +226,27 @@ func snapDiff(s *ysgo.Snapshot, cp yc.Checkpoint) string {
 			return fmt.Sprintf("variable %s: snapshot has %v (present %v), at the last node entry it was %v (present %v)", k, g, okg, want, okw)
 		}
 	}
+	// visit counts by title, blanks around a title disregarded (see above)
+	wantV, gotV := map[string]int{}, map[string]int{}
+	for k, v := range cp.Visits {
+		wantV[strings.TrimSpace(k)] += v
+	}
+	for k, v := range s.VisitedNodes {
+		gotV[strings.TrimSpace(k)] += v
+	}
 	var nodes []string
-	for k := range cp.Visits {
+	for k := range wantV {
 		nodes = append(nodes, k)
 	}
-	for k := range s.VisitedNodes {
-		if _, ok := cp.Visits[k]; !ok {
+	for k := range gotV {
+		if _, ok := wantV[k]; !ok {
 			nodes = append(nodes, k)
 		}
 	}
+	sort.Strings(nodes)
 	for _, k := range nodes {
-		if cp.Visits[k] != s.VisitedNodes[k] {
-			return fmt.Sprintf("visit count of %s: snapshot has %d, at the last node entry it was %d", k, s.VisitedNodes[k], cp.Visits[k])
+		if wantV[k] != gotV[k] {
+			return fmt.Sprintf("visit count of %s: snapshot has %d, at the last node entry it was %d", k, gotV[k], wantV[k])
 		}
 	}
 	return ""
